@@ -117,7 +117,7 @@ def mixed_sign_stream(ctx):
             a, b, c = float(m2[o][o]), float(m2[o][o + 1]), float(m2[o + 1][o + 1])
             l1, l2 = roots(a + c, a * c - b * b)
             # (with both eigenvalues <= 0 the widths are 0 up to the square root of a rounding error of the covariance)
-            check_sky('mixed-sign', obs, dx, l1, l2, fails, floor=dx * math.sqrt(max(abs(a), abs(b), abs(c), 1e-30)))
+            check_sky('mixed-sign', obs, dx, l1, l2, fails, floor=max(dx, dx * math.sqrt(max(abs(a), abs(b), abs(c), 1e-30))))
             if nd == 3:
                 wv = math.sqrt(max(float(m2[0][0]), 0.0))
                 if not (obs['v_rms'] == obs['v_rms']) or abs(obs['v_rms'] - wv) > 1e-6 * max(wv, 1.0):
@@ -165,7 +165,7 @@ def symmetric_block_stream(ctx):
             o = nd - 2
             a, b, c = float(m2[o][o]), float(m2[o][o + 1]), float(m2[o + 1][o + 1])
             l1, l2 = roots(a + c, a * c - b * b)
-            check_sky('symmetric set', obs, dx, l1, l2, fails, floor=dx * math.sqrt(max(abs(a), abs(c), 1e-30)))
+            check_sky('symmetric set', obs, dx, l1, l2, fails, floor=dx)          # (absolute tolerance: a millionth of a pixel)
         except Exception as e:
             fails.append('raised %r' % (e,))
         ctx.count('symmetric_sets')
